@@ -49,6 +49,9 @@ def gen_cases(rng, tier: str) -> list[dict]:
             P5 = wire.point({n: 0.3 + 0.4 * k for k, n in enumerate(vs5)})
             ops5 = [{"op": "normalize", "i": 0, "p": P5, "x": vs5[k % len(vs5)]} for k in (0, 1, 0, 2, 1, 0)]
             cases.append({"origin": "large", "pool": H.pool_to_wire(pool5), "ops": ops5})
+        if h % 4 == 3:
+            pool6 = H.float_pool(H.wide_pool(rng))
+            cases.append({"origin": "wide", "pool": H.pool_to_wire(pool6), "ops": H.repeated_simplification(rng, pool6)[: 12]})
         if h % 3 == 2:
             pool4 = H.offender_pool(rng)
             cases.append({"origin": "offender", "pool": H.pool_to_wire(pool4),
